@@ -28,7 +28,7 @@
    contain no (NoVersions, NotRoot) pair.  It is reduced to a property of the store alone
    ([no_notroot_cause]: no derived entry has a NotRoot entry among its causes). *)
 From Coq Require Import List NArith ZArith Bool.
-From PG Require Import Model.VS Model.Term Model.Solver Model.Registry Model.Report Proofs.VSLaws Proofs.SolverSem
+From PG Require Import Model.VS Model.Term Model.Solver Model.Registry Model.Report Proofs.VSLaws Proofs.SolverSem Proofs.SolverNoPair
   Proofs.SolverStore Proofs.SolverTree Proofs.ReportProofs Proofs.SolverCollapse.
 From PG Require Import Model.Instances Proofs.SolverExamples.
 Import ListNotations.
@@ -152,6 +152,30 @@ Section C09_solver.
       WellBehaved O reg tr -> resolve O veqb fuel r rv tr = (ONoSolution t, st, log, k) ->
       no_notroot_cause (store st) -> nv_notroot_pair t = false.
   Proof. exact (nosolution_tree_no_pair O L veqb reg r rv). Qed.
+
+  (* ... and that condition holds in every run: the not_root incompatibility is never a cause of a derived entry
+     (Proofs/SolverNoPair.v) *)
+  Theorem resolve_never_resolves_with_not_root :
+    reg_wf O L reg -> (forall a b, veqb a b = true -> a = b) ->
+    forall fuel tr o st log k,
+      WellBehaved O reg tr -> resolve O veqb fuel r rv tr = (o, st, log, k) -> no_notroot_cause (store st).
+  Proof. exact (resolve_no_notroot_cause O L veqb reg r rv). Qed.
+
+  (* THE PROPERTY for the trees resolve produces: collapse_no_versions never panics on them, and the result is a
+     valid explanation on existing versions: derived nodes entailed, NoVersions leaves true and surviving only next
+     to NoVersions/Custom leaves, every leaf equivalent (on existing versions) to a leaf of the original tree - which
+     was true of the provider -, and the top node still forbids the root *)
+  Theorem nosolution_tree_collapse_never_panics_and_stays_valid :
+    reg_wf O L reg -> (forall a b, veqb a b = true -> a = b) ->
+    forall fuel tr t st log k,
+      WellBehaved O reg tr -> resolve O veqb fuel r rv tr = (ONoSolution t, st, log, k) ->
+      exists t', collapse_no_versions O t = CTree t'
+        /\ locally_entailed O (existing reg) t' /\ nv_true O (existing reg) t' /\ tree_wf O L t'
+        /\ nv_survivors_ok t' /\ nv_notroot_pair t' = false
+        /\ (forall e', In e' (leaves t') -> exists e, In e (leaves t)
+              /\ forall a, existing reg a -> (violates O a (ext_terms O e) <-> violates O a (ext_terms O e')))
+        /\ (forall a, existing reg a -> a r = Some rv -> violates O a (node_terms O t')).
+  Proof. exact (nosolution_tree_collapse_total O L veqb reg r rv). Qed.
 End C09_solver.
 
 (* non-vacuity: the NoSolution tree of recorded run 1 over Range<Z> (a derived node over a dependency leaf and a
@@ -217,4 +241,6 @@ Print Assumptions store_tree_meets_collapse_hypotheses.
 Print Assumptions nosolution_tree_meets_collapse_hypotheses.
 Print Assumptions nosolution_tree_collapse.
 Print Assumptions nosolution_tree_no_pair_from_store.
+Print Assumptions resolve_never_resolves_with_not_root.
+Print Assumptions nosolution_tree_collapse_never_panics_and_stays_valid.
 Print Assumptions existing_unfold.
